@@ -154,6 +154,9 @@ def _p_norm(p: float, critical_pairs: list = []):
     result = 0.0
     for l in critical_pairs:
         for [[x0, y0], [x1, y1]] in zip(l, l[1:]):
+            # integer ordinates would be raised to the power p + 1 in 64-bit
+            # integer arithmetic, which wraps around silently
+            x0, y0, x1, y1 = np.array([x0, y0, x1, y1], dtype=np.float64)
             if y0 == y1:
                 # horizontal line segment
                 result += (np.abs(y0) ** p) * (x1 - x0)
